@@ -299,12 +299,19 @@ def main():
     import itertools as _it
     xp = onp.array([0.3, -0.7, 1.1, 0.4])
     vp = onp.array([1.0, -2.0, 0.5, 2.0])
-    def pterms(x):
+    pterm_fs = [lambda u, v_: u[0] * v_[1], lambda u, v_: anp.sum(anp.exp(u + v_)), lambda u, v_: anp.sum((u + v_) * (u + v_)),
+                lambda u, v_: anp.sum(anp.sin(u[0:2]) * v_[1:3]), lambda u, v_: u[3] * u[3] * v_[3], lambda u, v_: anp.sum(u[::-1] * v_)]
+
+    def run_terms(x, perm):          # u and v are SHARED by the summands, which are built (and so differentiated) in the order given
         u, v_ = anp.sin(x), anp.cos(2.0 * x)
-        s_ = u + v_
-        return [u[0] * v_[1], anp.sum(anp.exp(s_)), anp.sum(s_ * s_), anp.sum(anp.sin(u[0:2]) * v_[1:3]), u[3] * u[3] * v_[3], anp.sum(u[::-1] * v_)]
-    for perm in list(_it.permutations(range(6)))[:: 720 // (12 if cfg.get("tier") != "thorough" else 60)]:
-        fprog = lambda x, perm=perm: sum(pterms(x)[i] for i in perm)   # noqa: E731
+        tot = 0.0
+        for i in perm:
+            tot = tot + pterm_fs[i](u, v_)
+        return tot
+    perms = [p_ for k_ in (2, 3) for p_ in _it.permutations(range(6), k_)]
+    perms = perms[:: (3 if cfg.get("tier") != "thorough" else 1)] + list(_it.permutations(range(6)))[:: 720 // (12 if cfg.get("tier") != "thorough" else 60)]
+    for perm in perms:
+        fprog = lambda x, perm=perm: run_terms(x, perm)   # noqa: E731
         out["n"] += 1
         out["keys"].append("program-second-order|%s" % (perm,))
         dist("program:second-order")
